@@ -174,14 +174,20 @@ func runTwin(_ *testing.T, tw Twin) engine.Verdict {
 	if err := chA.Send(recA); err != nil || errB != nil {
 		return engine.Failf("C11/"+tw.Framing+"/send-error", "Send: %v / %v", err, errB)
 	}
-	for name, x := range map[string]struct {
-		wire []byte
-		want []byte
-	}{"first": {wa.buf.Bytes(), recA}, "second": {outB.Bytes(), recB}} {
-		got, err := fr(bytes.NewReader(x.wire), nopWC{}).Recv()
-		if err != nil || !bytes.Equal(got, x.want) {
-			return engine.Failf("C11/"+tw.Framing+"/record-differs", "two channels made from one framing value, the second sends while the first is writing: the %s channel's peer decodes %s (%v), want %s", name, engine.Q(clip(got)), err, engine.Q(clip(x.want)))
-		}
+	// Both peers decode; the first record is looked at again after the other
+	// channel has received: a record handed out by Recv belongs to the caller
+	// at least until the next Recv on the same channel.
+	ra, rb := fr(bytes.NewReader(wa.buf.Bytes()), nopWC{}), fr(bytes.NewReader(outB.Bytes()), nopWC{})
+	gotA, errA := ra.Recv()
+	if errA != nil || !bytes.Equal(gotA, recA) {
+		return engine.Failf("C11/"+tw.Framing+"/record-differs", "two channels made from one framing value, the second sends while the first is writing: the first channel's peer decodes %s (%v), want %s", engine.Q(clip(gotA)), errA, engine.Q(clip(recA)))
+	}
+	gotB, errB2 := rb.Recv()
+	if errB2 != nil || !bytes.Equal(gotB, recB) {
+		return engine.Failf("C11/"+tw.Framing+"/record-differs", "two channels made from one framing value, the second sends while the first is writing: the second channel's peer decodes %s (%v), want %s", engine.Q(clip(gotB)), errB2, engine.Q(clip(recB)))
+	}
+	if !bytes.Equal(gotA, recA) {
+		return engine.Failf("C11/"+tw.Framing+"/record-differs", "the record one channel's Recv returned changed when another channel of the same framing received: it is now %s, was %s", engine.Q(clip(gotA)), engine.Q(clip(recA)))
 	}
 	return engine.Verdict{NonTrivial: true, Labels: []string{"twin", "framing:" + tw.Framing}}
 }
